@@ -75,6 +75,39 @@ theorem reverseInPlace_take (m : Nat) : ∀ (ps : SortPtrs) (h : SortHeap), (∀
     · rw [if_pos hlt, take_set_of_le (hp p mem_cons_self)]
     · rw [if_neg hlt]
 
+/-- the replacement bytes realise the PROPERTY-level order of one key whenever every present value is in range -/
+theorem cmpKeys_eq_cmpProp1_aux (s : SortKey) (a b : Option Bytes)
+    (ha : ∀ v, a = some v → keyInRange v = true) (hb : ∀ v, b = some v → keyInRange v = true) :
+    cmpKeys [s] [keyOf s a] [keyOf s b] = cmpProp1 s a b := by
+  have single : ∀ x y : Bytes, cmpKeys [s] [x] [y] =
+      if bytesCmp x y = .eq then .eq else if s.desc then (bytesCmp x y).swap else bytesCmp x y := by
+    intro x y; rw [cmpKeys_cons]; rfl
+  have rng : ∀ v, keyInRange v = true → bytesCmp lowTerm v = .lt ∧ bytesCmp v highTerm = .lt := by
+    intro v h; unfold keyInRange at h; simpa using h
+  cases a with
+  | none =>
+    cases b with
+    | none => exact cmpKeys_refl _ _
+    | some v =>
+      have ⟨h1, h2⟩ := rng v (hb v rfl)
+      exact missing_first_last_aux s v h1 h2
+  | some u =>
+    cases b with
+    | none =>
+      have ⟨h1, h2⟩ := rng u (ha u rfl)
+      have := missing_first_last_aux s u h1 h2
+      show cmpKeys [s] [u] [missingValue s] = _
+      rw [cmpKeys_swap [s] [missingValue s] [u], this]
+      show _ = if s.missingFirst then Ordering.gt else Ordering.lt
+      cases s.missingFirst <;> rfl
+    | some v =>
+      show cmpKeys [s] [u] [v] = _
+      rw [single]
+      show _ = if s.desc then (bytesCmp u v).swap else bytesCmp u v
+      by_cases h : bytesCmp u v = .eq
+      · rw [if_pos h, h]; cases s.desc <;> rfl
+      · rw [if_neg h]
+
 /-- with a deep `Copy`, `Collector()` is pure -/
 theorem collectorPure_deep : CollectorPure true := by
   intro h r _
